@@ -28,6 +28,7 @@ def sortDesc {α} [LE α] [DecidableLE α] (vals : List α) : List (α × Nat) :
 inductive HdcErr where
   | emptySelection   -- `summed_flat_inds[-1]` on an empty selection: IndexError in the code
   | emptyArray
+  | nanInput         -- `np.isnan(flat_array).any()`: ValueError("array contains nan.")
   deriving Repr, DecidableEq
 
 structure SelResult (α : Type) where
@@ -48,6 +49,12 @@ def cumsumBiggestUntil {α} [Add α] [LE α] [LT α] [DecidableLE α] [Decidable
   match sel.getLast? with
   | none => .error .emptySelection
   | some l => .ok { selected := sel.map Prod.snd, last := l.1, warn := decide (total < limit) }
+
+/-- `cumsum_biggest_until` including its entry guard: an array that contains NaN is refused
+(`ValueError("array contains nan.")`) before anything is sorted. -/
+def cumsumBiggestUntilChecked {α} [Add α] [LE α] [LT α] [DecidableLE α] [DecidableLT α]
+    (isNan : α → Bool) (zero : α) (vals : List α) (limit : α) : Except HdcErr (SelResult α) :=
+  if vals.any isNan then .error .nanInput else cumsumBiggestUntil zero vals limit
 
 /-- The region and threshold the contour uses: on a warning all cells and probability 0. -/
 def hdrRegion {α} [Add α] [LE α] [LT α] [DecidableLE α] [DecidableLT α]
